@@ -48,6 +48,13 @@ var plans = map[string]*plan{
 		Stub:   []string{"the byte source and sink (scripted chunked reader, in-memory writer)"},
 		Assume: []string{"pointer extensions and the merge driver are not covered by this check (stated, not silently skipped)"},
 	},
+	"C10": {
+		ID: "C10", Engine: "A", Level: "exploration",
+		Stages: []stage{{"C10.noredirect", 3000, 80000}, {"C10", 12000, 500000}},
+		Rule:   "1-3 operations (download queue, upload queue with verify, locks listing, bare batch call) through the real lfsapi/lfshttp/tq code against 7 virtual origins (api, api:8443, other, http api, storage, http other, storage:8443) that all serve the LFS API behind a redirector: per request a tape-drawn redirect (301/302/303/307/308; absolute, relative, scheme-relative or malformed Location; any target origin; optional endless loop) and 401 sequences with different challenge headers; credential source per run: recording helper, multistage helper, URL userinfo on the remote or on lfs.url, netrc, command helper, askpass, none; action hrefs on 5 origins with/without their own Authorization. Every secret is unique and tagged with the origins it was obtained for. Every run is non-trivial; distinct = distinct choice trace.",
+		Real:   realA, Stub: append([]string{"credential helper (recording stub via lfsapi.Client.Credentials, or stub programs for git credential / GIT_ASKPASS)"}, stubA...),
+		Assume: []string{"an http->https redirect on the same host name with default ports keeping the credential is not judged (ambiguous under the statement); counted as a probe", "https is only a URL scheme inside the bubble: no TLS"},
+	},
 }
 
 func runEngineB(p *plan, tier string, base uint64, workers int, scale float64, replay string) int {
